@@ -332,6 +332,11 @@ func pruneBy(as Assume, extra func(f *paths.Frame, iff *ssa.If, idx int) bool) f
 		if want, ok := as[atom]; ok {
 			return want != truth
 		}
+		// an assumed equality fixes the value: eq / gt / lt tests of the same operand against other
+		// constants are decided by it (a switch rewritten as an if-chain tests the cases in another order)
+		if v, known := decideByAssumedValue(as, atom); known {
+			return v != truth
+		}
 		// wildcard: "err:*" assumes every error test to come out that way
 		if strings.HasPrefix(atom, "err:") {
 			if want, ok := as["err:*"]; ok && want != truth {
@@ -658,6 +663,39 @@ func evalBoolUnder(as Assume, v ssa.Value) (val bool, known bool) {
 			if kx && ky {
 				return (x == y) == (bo.Op == token.EQL), true
 			}
+		}
+	}
+	return false, false
+}
+
+// decideByAssumedValue: atom is "eq|gt|lt:<what>:<c>"; if the assumptions contain "eq:<what>:<k>" = true
+// the atom's truth follows from k.
+func decideByAssumedValue(as Assume, atom string) (val bool, known bool) {
+	if len(atom) < 4 || (atom[:3] != "eq:" && atom[:3] != "gt:" && atom[:3] != "lt:") {
+		return false, false
+	}
+	i := strings.LastIndex(atom, ":")
+	what, cs := atom[3:i], atom[i+1:]
+	c, err := strconv.ParseInt(cs, 10, 64)
+	if err != nil {
+		return false, false
+	}
+	prefix := "eq:" + what + ":"
+	for k, v := range as {
+		if !v || !strings.HasPrefix(k, prefix) {
+			continue
+		}
+		kv, err := strconv.ParseInt(k[len(prefix):], 10, 64)
+		if err != nil {
+			continue
+		}
+		switch atom[:3] {
+		case "eq:":
+			return kv == c, true
+		case "gt:":
+			return kv > c, true
+		case "lt:":
+			return kv < c, true
 		}
 	}
 	return false, false
